@@ -20,11 +20,13 @@ THOROUGH_N = 2400
 SHARD = 40
 RULE = ("membership histories of 3-10 Add/AddWithWeight/AddWithReplicas/Remove ops over node ids 0..7, every node of a "
         "random Go TYPE (string, struct value, *Stringer, pointer to a plain struct, plain struct value, *string, int, *int, "
-        "value-receiver Stringer by value and by pointer, nil-safe Stringer; pointer nodes are re-passed as freshly "
+        "value-receiver Stringer by value and by pointer, nil-safe Stringer, map[string]string, pointer to a map, struct holding a map "
+        "by value and by pointer; pointer nodes are re-passed as freshly "
         "allocated equal values in 1/3 of the ops), a quarter of the histories end by removing every node; replicas in "
         "{50,100,101,120}; 24 probe keys of random Go types (strings, *string, []byte, ints, bools, struct values and "
-        "pointers, Stringers, the nil interface, typed nil pointers, nil-receiver Stringers), several of them with EQUAL "
-        "representations, looked up after every op with the default murmur3 hash; non-trivial = at least two different "
+        "pointers, Stringers, the nil interface, typed nil pointers, nil-receiver Stringers, and >= 3 keys that are / point to / "
+        "hold a map with 4 entries), several of them with EQUAL representations; every key is looked up before every op (index "
+        "order) and after it (reverse order, 3 times in a row, map keys 200 times) with the default murmur3 hash; non-trivial = at least two different "
         "owners observed and at least one Remove or re-Add of a present node; distinct = distinct canonical case JSON")
 TRUSTED = ["murmur3 (hash values tabulated by the driver; the model is parametric in the hash and only uses "
            "order/equality of positions, so the encoder rank-compresses the 64-bit values)",
@@ -32,8 +34,18 @@ TRUSTED = ["murmur3 (hash values tabulated by the driver; the model is parametri
            "lang.Repr output of every key and node in model_ok); distinct generated nodes have distinct texts"]
 
 NODE_KINDS = ["string", "struct", "stringer", "pstruct", "plain", "pstr", "int", "pint", "vstringer", "pvstringer",
-              "safestringer"]
-POINTER_NODE_KINDS = {"stringer", "pstruct", "pstr", "pint", "pvstringer", "safestringer"}
+              "safestringer", "map", "pmap", "mapstruct", "pmapstruct"]
+POINTER_NODE_KINDS = {"stringer", "pstruct", "pstr", "pint", "pvstringer", "safestringer", "pmap", "pmapstruct"}
+
+
+def _labels(tag, i):
+    """fmt.Sprint of verifLabels(tag, i): maps print in key order"""
+    return "map[app:%s env:prod id:%d zone:z%d]" % (tag, i, i % 3)
+
+
+def _mapsi(sv, iv):
+    m = {sv: iv, "b": 2, "a": 1, "c": iv % 7}
+    return "map[%s]" % " ".join("%s:%d" % kv for kv in sorted(m.items()))
 
 
 def node_gval(kind, i):
@@ -48,7 +60,11 @@ def node_gval(kind, i):
             "pint": lambda: "(GPtr (Some %s))" % cstr("%d" % (2000 + i)),
             "vstringer": lambda: "(GStringer %s)" % cstr("vs-%d" % i),
             "pvstringer": lambda: "(GStringer %s)" % cstr("vs-%d" % (100 + i)),
-            "safestringer": lambda: "(GStringer %s)" % cstr("safe-%d" % i)}[kind]()
+            "safestringer": lambda: "(GStringer %s)" % cstr("safe-%d" % i),
+            "map": lambda: "(GVal %s)" % cstr(_labels("node", i)),
+            "pmap": lambda: "(GPtr (Some %s))" % cstr(_labels("pnode", i)),
+            "mapstruct": lambda: "(GVal %s)" % cstr("{ms-%d %s}" % (i, _labels("ms", i))),
+            "pmapstruct": lambda: "(GPtr (Some %s))" % cstr("{pms-%d %s}" % (i, _labels("pms", i)))}[kind]()
 
 
 def key_gval(k):
@@ -65,7 +81,11 @@ def key_gval(k):
              "struct": lambda: val("{%d}" % iv), "pstruct": lambda: ptr("{%d}" % iv),
              "plain": lambda: val("{%s %d}" % (sv, iv)), "pplain": lambda: ptr("{%s %d}" % (sv, iv)),
              "stringer": lambda: strg("stringer-%d" % iv), "vstringer": lambda: strg("vs-%d" % iv), "pvstringer": lambda: strg("vs-%d" % iv),
-             "safestringer": lambda: strg("safe-%d" % iv), "nilsafestringer": lambda: strg("nil-safe")}
+             "safestringer": lambda: strg("safe-%d" % iv), "nilsafestringer": lambda: strg("nil-safe"),
+             "mapss": lambda: val(_labels(sv, iv)), "pmapss": lambda: ptr(_labels(sv, iv)),
+             "mapsi": lambda: val(_mapsi(sv, iv)), "pmapsi": lambda: ptr(_mapsi(sv, iv)),
+             "mapstruct": lambda: val("{%s %s}" % (sv, _labels(sv, iv))), "pmapstruct": lambda: ptr("{%s %s}" % (sv, _labels(sv, iv))),
+             "nilpmap": lambda: "(GPtr None)", "nilmap": lambda: val("map[]")}
     return table[kind]()
 
 
@@ -99,12 +119,26 @@ def _gen_keys(rng, n):
             if rng.random() < 0.5:
                 keys.append({"k": "str", "s": {"stringer": "stringer-%d", "vstringer": "vs-%d", "pvstringer": "vs-%d",
                                                "safestringer": "safe-%d"}[kind] % num})
-        elif r < 0.94:
+        elif r < 0.92:
             keys.append(rng.choice([{"k": "bool", "i": num % 2}, {"k": "pbool", "i": num % 2}]))
+        elif r < 0.97:
+            keys += _map_keys(rng, num, 2)
         else:
             keys.append(tag)
     rng.shuffle(keys)
-    return keys[:n]
+    keys = keys[:n - 3] + _map_keys(rng, rng.randrange(10 ** 6), 3)   # every case looks up map-typed keys
+    rng.shuffle(keys)
+    return keys
+
+
+def _map_keys(rng, num, cnt):
+    """cnt keys that are / point to / contain a map with >= 2 entries (some pairs share their representation)"""
+    tag = "lbl%d" % (num % 1000)
+    pool = [{"k": "mapss", "s": tag, "i": num}, {"k": "pmapss", "s": tag, "i": num},
+            {"k": "mapsi", "s": "k%d" % (num % 50), "i": num}, {"k": "pmapsi", "s": "k%d" % (num % 50), "i": num},
+            {"k": "mapstruct", "s": tag, "i": num}, {"k": "pmapstruct", "s": tag, "i": num},
+            {"k": "str", "s": _labels(tag, num)}, {"k": "nilpmap"}, {"k": "nilmap"}]
+    return rng.sample(pool[:6], min(cnt, 2)) + rng.sample(pool, max(0, cnt - 2))
 
 ASSUMPTIONS = ["no ring-position collision between virtual nodes (checked per case: hyp label in input_distribution)",
                "keys/nodes whose own String/Error method panics (e.g. a nil pointer of a Stringer type whose String "
@@ -121,9 +155,12 @@ def _user_cases(rng, tier):
               [rng.choice([0, 1, 5, 20, 50, 100]) for _ in range(rng.randint(2, 9))]]
     if not any(shapes[-1]):
         shapes[-1][0] = 100
+    # drained (weight 0) entries in FRONT of / between several positive nodes of DIFFERENT weights: every positive node
+    # must keep ITS weight (always part of the stream, 240 keys so that a 100:50 vs 100:100 mix-up moves some key)
+    drained = [[0, 100, 50], [0, 50, 100, 25], [0, 0, 100, 30], [100, 0, 20, 0, 60]]
     for pkg in ("cache", "kv"):
-        for w in (shapes if tier == "thorough" else rng.sample(shapes, 4) + [[100] * 101]):
-            keys = ["user:%d:%d" % (rng.randrange(10 ** 7), i) for i in range(60)]
+        for w in (shapes if tier == "thorough" else rng.sample(shapes, 4) + [[100] * 101]) + drained:
+            keys = ["user:%d:%d" % (rng.randrange(10 ** 7), i) for i in range(240 if w in drained else 60)]
             out.append({"kind": "dispatch", "pkg": pkg, "weights": w, "keys": keys})
     data = []
     prefix = bytes(rng.randrange(256) for _ in range(80))
@@ -251,9 +288,11 @@ def _encode_ring(case, obs):
     else:
         krepr = ["(match repr %s with Ok t => Some t | _ => None end)" % k for k in keys]
     oppanic = [cbool(b) for b in obs.get("oppanic", [False] * len(case["ops"]))]
-    return "mkcase %s %s %s %s %s %s %s %s %s %s %s %s %s %s" % (
+    # step -1 (the empty ring before the first op answered something) is reported as op index 9999
+    unstable = [cpair(cnat(9999 if st < 0 else st), cnat(i)) for st, i in obs.get("unstable", [])]
+    return "mkcase %s %s %s %s %s %s %s %s %s %s %s %s %s %s %s" % (
         cnat(case["replicas"]), cbool(case["custom"]), clist(ops), clist(vh), clist(probes), clist(rows), cnat(case.get("balance_tol", 0)),
-        clist(keys), clist(krepr), clist(nodes), clist(nrepr), clist(gpanic), clist(oppanic), cpair(cnat(obs["nkeys"]), cnat(obs["nring"])))
+        clist(keys), clist(krepr), clist(nodes), clist(nrepr), clist(gpanic), clist(oppanic), cpair(cnat(obs["nkeys"]), cnat(obs["nring"])), clist(unstable))
 
 
 def nontrivial(case, obs):
@@ -304,6 +343,8 @@ def bucket(case, obs):
         out.append("final:all-removed")
     if any(v == -3 for row in obs["results"] for v in row) or any(obs.get("oppanic", [])):
         out.append("obs:PANIC")
+    if obs.get("unstable"):
+        out.append("obs:UNSTABLE-LOOKUP")
     return out
 
 
@@ -320,6 +361,13 @@ def explain(case, obs):
                 "hash built directly from the same pairs (or reports absence although a node has positive weight)" % case["pkg"])
     if case.get("kind") == "hash":
         return "hash.Hash(data) differs from murmur3.Sum64(data) for some input (the default hash must hash the whole input)"
+    if obs.get("unstable"):
+        st, i = obs["unstable"][0]
+        return ("two lookups of the SAME key under the SAME membership returned different nodes (c13_stable / "
+                "c13_lookup_repeatable): probe %s %s; %d such (op, probe) pairs; a lookup made before a membership change "
+                "and repeated lookups after it must all give the node that is the owner NOW" % (
+                    case["probes"][i], "before the first op (empty ring)" if st < 0 else "around op %d %s" % (st, case["ops"][st]),
+                    len(obs["unstable"])))
     if any(v == -3 for row in obs["results"] for v in row) or any(obs.get("oppanic", [])) or \
             any(r is None for r in obs.get("krepr", [])) or any(r is None for r in (obs.get("nrepr") or {}).values()):
         bad = sorted({str(case["probes"][i]) for row in obs["results"] for i, v in enumerate(row) if v == -3})
